@@ -145,6 +145,7 @@ pub fn check(rep: &mut CaseReport, events: &[Event], view: &WireView, p: &Params
             if dead_at.is_some() {
                 continue;
             }
+            let mut ack_ignored = false;
             match pk.ty {
                 wire::ST_FIN => {
                     let fi = peer_idx(pk.seq);
@@ -155,6 +156,8 @@ pub fn check(rep: &mut CaseReport, events: &[Event], view: &WireView, p: &Params
                         rep.counters.inc("c17_peer_fins_in_sequence");
                     } else if peer_fin_accepted.is_none() {
                         rep.counters.inc("c17_peer_fins_out_of_sequence");
+                        // dropped whole: what it acknowledges is learnt from a later packet
+                        ack_ignored = true;
                     }
                 }
                 wire::ST_RESET => {
@@ -172,7 +175,7 @@ pub fn check(rep: &mut CaseReport, events: &[Event], view: &WireView, p: &Params
                 }
                 _ => {}
             }
-            if pk.ty != wire::ST_SYN && pk.ty != wire::ST_RESET {
+            if pk.ty != wire::ST_SYN && pk.ty != wire::ST_RESET && !ack_ignored {
                 let a = my_idx(pk.ack);
                 if a > data_acked_idx {
                     for (_, (t0, n)) in data_sent_at.range(data_acked_idx + 1..=a) {
